@@ -5,7 +5,7 @@ pid = sys.argv[1]
 wt = sys.argv[2] if len(sys.argv) > 2 else f"/tmp/wt/{pid}"
 N = int(sys.argv[3]) if len(sys.argv) > 3 else 2
 letters = "ABCDE"[:N]
-repl = {"{N}": {2:"TWO",3:"THREE"}[N], "{NAMES}": ", ".join(letters[:-1])+" and "+letters[-1], "{OTHERS}": ", ".join(l+"/" for l in letters[1:])}
+repl = {"@@N@@": {2:"TWO",3:"THREE"}[N], "@@NAMES@@": ", ".join(letters[:-1])+" and "+letters[-1], "@@OTHERS@@": ", ".join(l+"/" for l in letters[1:])}
 p = next(json.loads(l) for l in open('/verif/properties.jsonl') if json.loads(l)['id'] == pid)
 text = (f"""You are helping to evaluate a verification effort for the open-source project koordinator-sh/koordinator (a Kubernetes scheduler / descheduler / node agent, written in Go). You have your own scratch git worktree of the repository at {wt} (detached HEAD of the pinned commit). Work ONLY inside {wt}; never touch /repo or /verif and do not read anything under /verif.
 
@@ -17,7 +17,7 @@ Here is a semantic property that the code base is supposed to satisfy:
   quantified over: {p['quantifier']['text']}
   main source files: {', '.join(p['anchors']['files'])}
 
-YOUR TASK: produce {N} independent, realistic source changes (call them {NAMES}, each touching a different function and a different mechanism; spread them over different files of the list above, and prefer places that are NOT the most obvious one) to the non-test Go code of koordinator that each BREAK this property, while
+YOUR TASK: produce @@N@@ independent, realistic source changes (call them @@NAMES@@, each touching a different function and a different mechanism; spread them over different files of the list above, and prefer places that are NOT the most obvious one) to the non-test Go code of koordinator that each BREAK this property, while
   (1) the repository still compiles (`go build ./...` for the touched packages), and
   (2) the EXISTING unit tests of the touched packages still pass, unedited (`go test -mod=mod -vet=off -count=1 <pkgs>`), and
   (3) the breakage needs something specific to manifest: a particular interleaving, a crash or fault at a particular point, a multi-step sequence of operations, an unusual input, or two cooperating sites that each look fine alone. NOT a change that ordinary use or the existing tests would expose at once. Think of the kind of subtle regression a well-meaning refactoring or "optimisation" could introduce: a dropped update on one branch, a check moved after an effect, a lock narrowed, a comparison against the wrong limit, an asymmetric add/remove, a missed index, an off-by-one in a boundary nobody tests.
@@ -28,7 +28,7 @@ Deliverables, written into {wt}/SEED/ :
   A/patch.diff   - the source change only (output of `git diff` for the non-test files), must apply with `git apply` to the pinned commit
   A/zz_seed_A_test.go - the demonstration test, plus A/demo_path.txt containing the repo-relative path where it must be placed (e.g. pkg/foo/zz_seed_A_test.go)
   A/README.md    - which clause of the property it breaks, what is needed for it to manifest, the exact commands you ran (build, existing tests, demo with and without the patch) and their outcomes
-  and the same under {OTHERS} .
+  and the same under @@OTHERS@@ .
 Leave the worktree itself clean of the changes at the end (git checkout -- . ; remove the demo test files from the package dirs) - only the SEED/ directory should remain as untracked content.
 
 Environment notes: there is NO network. Use the default `go` (it switches to the cached Go 1.25 toolchain by itself); always pass -mod=mod to go build/test; do not set GOTOOLCHAIN or GOFLAGS. Example: `cd {wt} && go test -mod=mod -vet=off -count=1 ./pkg/scheduler/plugins/elasticquota/...`. Building a package the first time can take a minute or two. Do not run the whole repository test suite; the packages you touch (and packages that directly use the touched functions) are enough. Packages under pkg/koordlet/ (and anything importing them) cannot be compiled here without a workaround because a cgo header is missing: for those add `-overlay {wt}/.perf_overlay.json` to every go build / go test / go vet command (the file is already there; it swaps one cgo file for a stub and changes nothing else; git ignores nothing - do not add it to your patch). The machine is shared with other jobs: do not use more than 4 parallel processes (-p 4).
